@@ -9,6 +9,7 @@ import (
 	"go/ast"
 	"go/token"
 	"go/types"
+	"os"
 	"sort"
 	"strings"
 
@@ -332,7 +333,11 @@ func c01ErrPropagation(r *Report, s *S1) { errPropagation(r, s, "C01/err-propaga
 // shape the test takes (if / switch / helper / closure that assigns the outer err).
 func errPropagation(r *Report, s *S1, ruleName string) {
 	nForks, nFuncs := 0, 0
-	for _, path := range []string{modPath, modPath + "/cmd/goag"} {
+	pkgPaths := []string{modPath, modPath + "/cmd/goag"}
+	if os.Getenv("VERIF_FAILFLOW_ALL") != "" {
+		pkgPaths = append(pkgPaths, modPath+"/generator", modPath+"/specification")
+	}
+	for _, path := range pkgPaths {
 		p := s.Pkgs[path]
 		c := &c19{r: r, s: s, p: p, info: p.TypesInfo, writers: map[*types.Func]int{}}
 		c.findWriters()
